@@ -187,6 +187,8 @@ def run(chk):
                detail="`%s` can run for a bound label entry: its offset is replaced by a heap pointer, the reference is never resolved and later "
                       "references to the label use the pointer as an offset" % " ".join(nf.text(i).split())[:60], key="fixupunbound|%d" % k)
 
+    from lib import writeoffset
+    writeoffset.run(chk)
     return chk.finish(
         level="other",
         explanation=("Bookkeeping rules over label/fixup handling in /repo's current source: label ids validated on the taken edge before "
